@@ -8,6 +8,8 @@ import (
 	"strings"
 
 	"engcheck/core"
+
+	"golang.org/x/tools/go/types/typeutil"
 )
 
 func init() {
@@ -213,20 +215,30 @@ func c08Probe(c *core.Ctx) {
 	}
 	ok := len(sends) == 1 && isCandidate(op, sends[0].Recv)
 	if ok {
-		// the packet literal: Type PONG, data "probe"
+		// the packet literal: Type PONG, data "probe" — written in place, or returned by a novel private helper
+		lit := ast.Node(sends[0].Arg(0))
+		litInfo := info
+		if ce, isC := ast.Unparen(sends[0].Arg(0)).(*ast.CallExpr); isC {
+			if f, _ := typeutil.Callee(info, ce).(*types.Func); f != nil && core.IsNovel(f) {
+				if h := c.P.UnitOf(f); h != nil && h.Pkg == op.Pkg && len(returnsIn(h)) == 1 && len(returnsIn(h)[0].Stmt.Results) == 1 {
+					c.Touch(h)
+					lit, litInfo = returnsIn(h)[0].Stmt.Results[0], h.Info()
+				}
+			}
+		}
 		ok = false
-		ast.Inspect(sends[0].Arg(0), func(n ast.Node) bool {
+		ast.Inspect(lit, func(n ast.Node) bool {
 			if kv, isKV := n.(*ast.KeyValueExpr); isKV {
-				if k, _ := kv.Key.(*ast.Ident); k != nil && k.Name == "Type" && pktConst(info, kv.Value, "pong") {
+				if k, _ := kv.Key.(*ast.Ident); k != nil && k.Name == "Type" && pktConst(litInfo, kv.Value, "pong") {
 					ok = true
 				}
 			}
 			return true
 		})
 		hasProbe := false
-		ast.Inspect(sends[0].Arg(0), func(n ast.Node) bool {
+		ast.Inspect(lit, func(n ast.Node) bool {
 			if e, isE := n.(ast.Expr); isE {
-				if s, isS := core.ConstString(info, e); isS && s == "probe" {
+				if s, isS := core.ConstString(litInfo, e); isS && s == "probe" {
 					hasProbe = true
 				}
 			}
